@@ -98,7 +98,9 @@ def truth(ctx, case, c, flat, label, src_order=None):
 def verilog_case(ctx, rng, idx):
     from kyupy import verilog
     import kyupy.techlib as T
-    desc = N.gen_desc(rng)
+    desc = N.gen_desc(rng, n_inst=(rng.choice([150, 320]) if idx == 1 else None))      # idx 1: a few hundred instances (more than 255 cells / signals)
+    if idx == 1:
+        ctx.count('large_cases')
     ctx.hit('libs', desc['lib'])
     flat = N.flat_net(desc)
     text, feats = N.render_verilog(desc, rng)
